@@ -86,6 +86,7 @@ def mask_of(tip):
 
 
 def gen_volume(rng, mx):
+    mx = 7158278 if mx > 7158278 else mx  # no record carries more, whatever the worklist allows
     r = rng.random()
     if r < 0.1:
         return rng.choice([0, 0.0, float(mx), mx])
@@ -107,7 +108,7 @@ def bad_volume(rng, cls, mx):
         "neg": -rng.choice([1.0, 0.01, 1e-9, 500.0]),
         "nan": math.nan,
         "inf": math.inf,
-        "huge": rng.choice([7158278.01, 7158279, 1e9, 1e300]),
+        "huge": rng.choice([7158278.01, 7158279, 1e9, 1e300] + ([8e6, 9999999] if mx > 7158278 else [])),
         "over_max": rng.choice([mx + 0.01, mx + 1, mx * 2, math.nextafter(float(mx), math.inf)]) if mx else rng.choice([0.01, 1, 250.0]),
         "none": None,
         "text": "abc",
@@ -132,6 +133,8 @@ def gen_case(rng, tier, index):
     mx = rng.choice([950, 950, 200, 1000, 333.3, 50])
     if entry in ("aspirate_well", "dispense_well", "reagent_distribution") and rng.random() < 0.04:
         mx = rng.choice([0, 0.0])  # a worklist that may not pipette at all: every positive volume is oversized
+    elif entry in ("aspirate_well", "dispense_well", "reagent_distribution") and rng.random() < 0.03:
+        mx = rng.choice([1e7, 10**7] + ([math.inf] if entry != "reagent_distribution" else []))  # a step limit above what a record can carry (7158278 uL)
     wl = {"max_volume": mx, "diti_mode": rng.random() < 0.3, "auto_split": True,
           "cls": rng.choice(["base", "base", "base", "evo", "fluent", "deprecated", "deprecated_positional"])}
     case = {"entry": entry, "wl": wl, "faults": []}
@@ -171,6 +174,10 @@ def gen_case(rng, tier, index):
         elif rng.random() < 0.04:
             # the library's own identifier enum as rack label: the record names the identifier, not the enum member
             a["rack_label"] = {"__labwares__": "SystemLiquid"}
+        if rng.random() < 0.3:
+            # the same call was made a moment ago on another worklist with arguments that compare equal but are of
+            # another type (tip number 4 / Tip.T3 whose value is 4, position 1 / 1.0, volume 5 / 5.0)
+            case["primed"] = rng.choice(["tip", "tip", "volume", "position", "all"])
         case["args"], case["kw"] = enc(a), enc(kw)
     elif entry == "reagent_distribution":
         s0 = rng.randint(1, 40)
@@ -345,6 +352,45 @@ def _prefix(wl, kind):
         wl.set_diti(1)
 
 
+def _twin(x):
+    """A value that compares (and hashes) equal to x but is of another type, or x itself."""
+    from robotools import Tip
+
+    if isinstance(x, Tip):
+        return int(x) if x != Tip.Any else x
+    if isinstance(x, bool):
+        return int(x)
+    if isinstance(x, (int, np.integer)):
+        try:
+            return Tip(int(x))
+        except ValueError:
+            return float(x)
+    if isinstance(x, float) and x.is_integer() and abs(x) < 2**53:
+        return int(x)
+    if isinstance(x, (list, tuple)):
+        return type(x)(_twin(e) for e in x)
+    return x
+
+
+def _prime(ctx, cls, wlc, entry, label_arg, a, kw, case_primed):
+    """Make the twin call on a worklist of its own; whatever it does, the judged call must not notice."""
+    try:
+        other = cls(max_volume=wlc["max_volume"], diti_mode=wlc["diti_mode"])
+        kw2 = dict(kw)
+        how = case_primed
+        if "tip" in kw2 and how in ("tip", "all"):
+            kw2["tip"] = _twin(kw2["tip"])
+        pos, vol = a["position"], a["volume"]
+        if how in ("position", "all") and isinstance(pos, (int, float)) and not isinstance(pos, bool):
+            pos = _twin(pos) if not isinstance(pos, int) else float(pos)
+        if how in ("volume", "all"):
+            vol = _twin(vol)
+        getattr(other, entry)(label_arg, pos, vol, **kw2)
+        ctx.count("twin_call_made_before:accepted")
+    except Exception:
+        ctx.count("twin_call_made_before:refused")
+
+
 def run_case(ctx, case):
     import robotools
 
@@ -391,6 +437,8 @@ def run_case(ctx, case):
         ex_given = items
         ctx.count("exclusions_given_as_one_shot_iterator")
     exc = None
+    if case.get("primed") and entry in ("aspirate_well", "dispense_well"):
+        _prime(ctx, type(wl), wlc, entry, label_arg, a, kw, case["primed"])
     try:
         if entry in ("aspirate_well", "dispense_well"):
             getattr(wl, entry)(label_arg, a["position"], a["volume"], **kw)
